@@ -87,6 +87,9 @@ func CanonicalJSON(input []byte) ([]byte, error) {
 	if !gjson.Valid(string(input)) {
 		return nil, BadJSONError{errors.New("gjson validation failed")}
 	}
+	if jsonNesting(input) > maxJSONNesting {
+		return nil, BadJSONError{errors.New("exceeded max depth")}
+	}
 
 	return CanonicalJSONAssumeValid(input), nil
 }
@@ -151,6 +154,40 @@ func verifyEnforcedCanonicalJSON(input []byte) error {
 		return ErrCanonicalJSON
 	}
 	return nil
+}
+
+// maxJSONNesting is the nesting depth beyond which CanonicalJSON refuses a document,
+// the limit that encoding/json applies too. Sorting recurses once per level, and a
+// goroutine that runs out of stack takes the whole process down: it cannot be recovered.
+const maxJSONNesting = 10000
+
+// jsonNesting returns how deeply the arrays and objects of a valid JSON text are nested.
+func jsonNesting(input []byte) int {
+	depth, deepest := 0, 0
+	inString := false
+	for i := 0; i < len(input); i++ {
+		c := input[i]
+		if inString {
+			if c == '\\' {
+				i++
+			} else if c == '"' {
+				inString = false
+			}
+			continue
+		}
+		switch c {
+		case '"':
+			inString = true
+		case '{', '[':
+			depth++
+			if depth > deepest {
+				deepest = depth
+			}
+		case '}', ']':
+			depth--
+		}
+	}
+	return deepest
 }
 
 // CanonicalJSONAssumeValid is the same as CanonicalJSON, but assumes the
